@@ -77,7 +77,7 @@ class ExprMixin:
         if isinstance(ty, T.Atom) and is_pystr(sv):
             return SV(ty, T.atom_const(ty, sv.t.as_string()))
         if isinstance(ty, T.List) and sv.ty == Display:
-            arr = z3.K(z3.IntSort(), self.default(ty.t))
+            arr = fresh_sort("elems", z3.ArraySort(z3.IntSort(), T.sort_of(ty.t)))
             for i, e in enumerate(sv.t):
                 arr = z3.Store(arr, i, self.coerce(e, ty.t).t)
             return SV(ty, T.list_mk(ty, I(len(sv.t)), arr))
@@ -101,9 +101,9 @@ class ExprMixin:
 
     def empty(self, ty):
         if isinstance(ty, T.List):
-            return SV(ty, T.list_mk(ty, I(0), z3.K(z3.IntSort(), self.default(ty.t))))
+            return SV(ty, T.list_mk(ty, I(0), fresh_sort("noelems", z3.ArraySort(z3.IntSort(), T.sort_of(ty.t)))))
         if isinstance(ty, T.Dict):
-            return SV(ty, T.dict_mk(ty, z3.K(T.sort_of(ty.k), z3.BoolVal(False)), z3.K(T.sort_of(ty.k), self.default(ty.v))))
+            return SV(ty, T.dict_mk(ty, z3.K(T.sort_of(ty.k), z3.BoolVal(False)), fresh_sort("novals", z3.ArraySort(T.sort_of(ty.k), T.sort_of(ty.v)))))
         if isinstance(ty, T.Set):
             return SV(ty, z3.K(T.sort_of(ty.k), z3.BoolVal(False)))
         raise VCError("no empty value for %s" % ty)
